@@ -77,8 +77,14 @@ def _int(digits):
     return n
 
 
+_STRPTIME_INSTALLED = [False]
+
+
 def install_strptime_model():
     import crosshair
+    if _STRPTIME_INSTALLED[0]:
+        return
+    _STRPTIME_INSTALLED[0] = True
     crosshair.register_patch(dt.datetime.strptime, strptime_model)
 
 
